@@ -22,21 +22,25 @@ fn run_once(sched: &Arc<Sched>, sc: &Value, sc_ix: usize, run_ix: usize, out: &A
     let ns = namespace(sc["ns"].as_str().unwrap_or("nil"));
     let counts: Vec<usize> = sc["threads"].as_array().map(|a| a.iter().map(|x| x.as_u64().unwrap_or(1) as usize).collect()).unwrap_or_else(|| vec![1, 1]);
     let total: usize = counts.iter().sum();
-    let gen = Arc::new(UuidGenerator::new(ns));
+    // the counter can be positioned anywhere through the public serde form of the generator
+    let start: u64 = sc["start"].as_str().and_then(|x| x.parse().ok()).or_else(|| sc["start"].as_u64()).unwrap_or(0);
+    let mk = || -> UuidGenerator { serde_json::from_value(json!({"namespace": ns, "counter": start})).unwrap_or_else(|_| UuidGenerator::new(ns)) };
+    let gen = Arc::new(mk());
     let goid = gen.verif_counter().1;
-    // oracle: index of each id
+    // oracle: the id of counter value n is v5(namespace, decimal rendering of n)
+    let oracle = move |n: u64| uuid::Uuid::new_v5(&ns, n.to_string().as_bytes());
     let mut table = HashMap::new();
-    for n in 0..(total as u64 + 8) {
-        table.insert(uuid::Uuid::new_v5(&ns, n.to_string().as_bytes()), n as i64);
+    for k in 0..(total as u64 + 8) {
+        table.insert(oracle(start.wrapping_add(k)), k as i64);
     }
     let table = Arc::new(table);
-    out.push(json!({"k": "reset", "sc": sc_ix, "run": run_ix, "n": counts.len(), "ns": ns.to_string()}));
+    out.push(json!({"k": "reset", "sc": sc_ix, "run": run_ix, "n": counts.len(), "ns": ns.to_string(), "start": start.to_string()}));
     let after: Arc<AfterFn> = {
         let (gen, out) = (gen.clone(), out.clone());
         Arc::new(move |w: usize, ev: &Event, res: &str| {
             let lab = if ev.oid == goid { "gen" } else { "unknown" };
             out.push(json!({"k": "op", "t": w + 1, "o": lab, "op": ev.op, "v": ev.arg.parse::<u64>().map(sint).unwrap_or(0),
-                            "r": res.parse::<u64>().map(sint).unwrap_or(0), "g": sint(gen.verif_counter().0)}));
+                            "r": res.parse::<u64>().map(|x| sint(x.wrapping_sub(start))).unwrap_or(0), "g": sint(gen.verif_counter().0.wrapping_sub(start))}));
         })
     };
     sched.set_after(Some(after));
@@ -49,7 +53,9 @@ fn run_once(sched: &Arc<Sched>, sc: &Value, sc_ix: usize, run_ix: usize, out: &A
                 for _ in 0..k {
                     out.push(json!({"k": "call", "t": w + 1}));
                     let id = gen.next();
-                    out.push(json!({"k": "ret", "t": w + 1, "id": table.get(&id).copied().unwrap_or(-1), "raw": id.to_string()}));
+                    let ix = table.get(&id).copied().unwrap_or(-1);
+                    let exp = if ix >= 0 { oracle(start.wrapping_add(ix as u64)).to_string() } else { String::new() };
+                    out.push(json!({"k": "ret", "t": w + 1, "id": ix, "raw": id.to_string(), "exp": exp}));
                 }
             }) as Job
         })
@@ -59,9 +65,9 @@ fn run_once(sched: &Arc<Sched>, sc: &Value, sc_ix: usize, run_ix: usize, out: &A
     sched.run(jobs, 10_000, &mut wrap);
     sched.set_after(None);
     // a second generator with the same namespace, called sequentially the same number of times
-    let gen2 = UuidGenerator::new(ns);
+    let gen2 = mk();
     let seq2: Vec<Value> = (0..total).map(|_| { let id = gen2.next(); json!({"id": table.get(&id).copied().unwrap_or(-1), "raw": id.to_string()}) }).collect();
-    out.push(json!({"k": "end", "counter": sint(gen.verif_counter().0), "gen2": seq2, "total": total}));
+    out.push(json!({"k": "end", "counter": sint(gen.verif_counter().0.wrapping_sub(start)), "gen2": seq2, "total": total}));
     let g = rec.lock().unwrap().clone();
     g
 }
